@@ -83,6 +83,7 @@ def setup_attend(e):
     e.opaque_attr = attr
 
 
+import os as _os
 SUBS = T.oneof(T.list(), T.list(SUB), T.list(SUB, SUB))
 SVC_A = T.obj(SV, ldm_maintenance=T.opaque("maintenance"), data_provider_its_aid=T.symset(), data_consumer_its_aid=T.symset(),
               subscriptions=SUBS, last_checked_subscriptions_time=T.keymap("lastmap", SUB, TS), _lock=T.opaque("rlock"))
